@@ -449,7 +449,9 @@ func (root *Root) replaceArgVars(vars map[string]interface{}, v interface{}, at 
 	val = v
 	switch tv := val.(type) {
 	case Var:
-		val = vars[string(tv)]
+		// Coercion can modify maps and lists in place so work on a copy to
+		// leave the variables and variable defaults as they are.
+		val = copyValue(vars[string(tv)])
 		if at != nil {
 			if ic, _ := at.(InCoercer); ic != nil { // validated in SDL validation
 				if val, err = ic.CoerceIn(val); err != nil {
@@ -459,14 +461,17 @@ func (root *Root) replaceArgVars(vars map[string]interface{}, v interface{}, at 
 		}
 	case map[string]interface{}:
 		if it, _ := BaseType(at).(*Input); it != nil {
+			// Build a new map so the literal in the parsed executable is not modified.
+			cp := make(map[string]interface{}, len(tv))
 			for k, v := range tv {
 				var vt Type
 				if f := it.fields.get(k); f != nil {
 					vt = f.Type
 				}
-				tv[k], ea2 = root.replaceArgVars(vars, v, vt)
+				cp[k], ea2 = root.replaceArgVars(vars, v, vt)
 				ea = append(ea, ea2...)
 			}
+			val = cp
 			if val, err = it.CoerceIn(val); err != nil {
 				ea = append(ea, resWarnp(nil, "%s", err))
 			}
@@ -480,10 +485,13 @@ func (root *Root) replaceArgVars(vars map[string]interface{}, v interface{}, at 
 		if lt != nil {
 			mt = lt.Base
 		}
+		// Build a new list so the literal in the parsed executable is not modified.
+		cp := make([]interface{}, len(tv))
 		for i, v := range tv {
-			tv[i], ea2 = root.replaceArgVars(vars, v, mt)
+			cp[i], ea2 = root.replaceArgVars(vars, v, mt)
 			ea = append(ea, ea2...)
 		}
+		val = cp
 	case Symbol:
 		bt := BaseType(at)
 		if et, _ := bt.(*Enum); et != nil {
@@ -499,6 +507,25 @@ func (root *Root) replaceArgVars(vars map[string]interface{}, v interface{}, at 
 		}
 	}
 	return
+}
+
+// copyValue makes a deep copy of the maps and lists of a value.
+func copyValue(v interface{}) interface{} {
+	switch tv := v.(type) {
+	case map[string]interface{}:
+		cp := make(map[string]interface{}, len(tv))
+		for k, m := range tv {
+			cp[k] = copyValue(m)
+		}
+		return cp
+	case []interface{}:
+		cp := make([]interface{}, len(tv))
+		for i, m := range tv {
+			cp[i] = copyValue(m)
+		}
+		return cp
+	}
+	return v
 }
 
 func (root *Root) resolveField(
@@ -715,7 +742,11 @@ func (root *Root) formReflectArgs(ov reflect.Value, vars map[string]interface{},
 	args = append(args, ov)
 	// Build the args by combining provided args and variable values as
 	// appropriate.
-	for _, av := range field.Args {
+	fa := field.Args
+	if field.sorted != nil {
+		fa = field.sorted
+	}
+	for _, av := range fa {
 		if vr, ok := av.Value.(Var); ok && vars != nil {
 			args = append(args, reflect.ValueOf(vars[string(vr)]))
 		} else {
